@@ -3,7 +3,7 @@
    (generate_prefix, load_prefix, add_namespace, encode_data, reset_default_namespace)
    preserves.  The key consequence: under the guard no binding is ever overwritten
    (`ext`), except the default namespace being reset to "". *)
-From Coq Require Import NArith List Bool Lia.
+From Coq Require Import NArith List Bool Lia FinFun.
 From XV Require Import Base.Str Base.Dec Base.Eqb Spec.XmlNs Gen.WriterTables Model.Writer.
 Import ListNotations.
 Open Scope N_scope.
@@ -120,15 +120,6 @@ Qed.
 Lemma to_dec_inj a b : to_dec a = to_dec b -> a = b.
 Proof. intros H. rewrite <- (str_val_to_dec a), <- (str_val_to_dec b), H. reflexivity. Qed.
 
-Lemma generated_index_ns k : generated_index (s_ns ++ to_dec k) = Some k.
-Proof.
-  unfold generated_index, s_ns. cbn [app].
-  pose proof (to_dec_nonempty k) as Hne.
-  destruct (to_dec k) as [|d ds] eqn:E; [contradiction|].
-  rewrite <- E. cbn [N.eqb Pos.eqb andb].
-  rewrite to_dec_digits, str_val_to_dec, str_eqb_refl. reflexivity.
-Qed.
-
 Lemma is_digit_ncname_char c : is_ascii_digit c = true -> is_ncname_char c = true.
 Proof.
   unfold is_ascii_digit, is_ncname_char, in_range. intros H. rewrite H.
@@ -145,8 +136,7 @@ Qed.
 (* ------------------------------------------------------------------ the standard table *)
 Definition std_entry_ok (e : str * str) : bool :=
   let (u, p) := e in
-  is_ncname p && negb (str_eqb p s_xmlns) && uri_ok u && Bool.eqb (str_eqb p s_xml) (str_eqb u ns_xml)
-  && match generated_index p with None => true | Some _ => false end.
+  is_ncname p && negb (str_eqb p s_xmlns) && uri_ok u && Bool.eqb (str_eqb p s_xml) (str_eqb u ns_xml).
 Definition std_table_ok : bool :=
   forallb std_entry_ok std_namespaces
   && nodup_by str_eqb (map fst std_namespaces) && nodup_by str_eqb (map snd std_namespaces)
@@ -229,8 +219,6 @@ Definition legal_entry (p : option str) (u : str) : Prop :=
 
 Record minv (u0 : option str) (m : nsmap) : Prop := {
   mi_uniq : NoDup (map fst m);
-  mi_fresh : forall k, nm_get m (Some (s_ns ++ to_dec k)) <> None -> k < N.of_nat (length m);
-  mi_std : forall su sp u, In (su, sp) std_namespaces -> nm_get m (Some sp) = Some u -> u = su;
   mi_legal : forall p u, In (p, u) m -> legal_entry p u;
   mi_default_alone : forall u p, u <> [] -> nm_get m None = Some u -> nm_get m p = Some u -> p = None;
   mi_default_user : forall u, nm_get m None = Some u -> u = [] \/ u0 = Some u
@@ -244,7 +232,7 @@ Lemma ext_trans a b c : ext a b -> ext b c -> ext a c.
 Proof. intros H1 H2 p u H. apply H2, H1, H. Qed.
 
 Lemma minv_In_get u0 m p u : minv u0 m -> In (p, u) m -> nm_get m p = Some u.
-Proof. intros [H _ _ _ _ _]. apply In_nm_get, H. Qed.
+Proof. intros [H _ _ _]. apply In_nm_get, H. Qed.
 
 (* adding a binding under a key that is not present *)
 Lemma nm_set_fresh_get m p u p' u' :
@@ -262,6 +250,46 @@ Proof.
     + destruct (IH Hn H) as [H1|H1]; [left; right; exact H1|right; exact H1].
 Qed.
 
+(* the while loop of generate_prefix finds a free key: pigeonhole *)
+Lemma nm_get_Some_In_keys m p u : nm_get m p = Some u -> In p (map fst m).
+Proof. intros H. apply nm_get_In in H. apply (in_map fst) in H. exact H. Qed.
+
+Lemma free_ns_spec m fuel : forall k,
+  nm_get m (Some (free_ns m k fuel)) = None
+  \/ (forall i, (i < fuel)%nat -> nm_get m (Some (s_ns ++ to_dec (k + N.of_nat i))) <> None).
+Proof.
+  induction fuel as [|f IH]; intros k.
+  - right. intros i Hi. lia.
+  - cbn [free_ns]. unfold nm_has_key. destruct (nm_get m (Some (s_ns ++ to_dec k))) as [x|] eqn:G.
+    + destruct (IH (k + 1)) as [H|H]; [left; exact H|]. right. intros i Hi.
+      destruct i as [|i].
+      * rewrite N.add_0_r, G. discriminate.
+      * replace (k + N.of_nat (S i)) with (k + 1 + N.of_nat i) by lia. apply H. lia.
+    + left. exact G.
+Qed.
+
+Lemma free_ns_form m fuel : forall k, exists j, free_ns m k fuel = s_ns ++ to_dec j.
+Proof.
+  induction fuel as [|f IH]; intros k; cbn [free_ns]; [eauto|].
+  destruct (nm_has_key m (Some (s_ns ++ to_dec k))); [apply IH|eauto].
+Qed.
+
+Lemma free_ns_free m k : NoDup (map fst m) -> nm_get m (Some (free_ns m k (S (length m)))) = None.
+Proof.
+  intros Hnd. destruct (free_ns_spec m (S (length m)) k) as [H|H]; [exact H|]. exfalso.
+  set (cands := map (fun i => Some (s_ns ++ to_dec (k + N.of_nat i))) (seq 0 (S (length m)))).
+  assert (Hnd2 : NoDup cands).
+  { unfold cands. apply FinFun.Injective_map_NoDup; [|apply seq_NoDup].
+    intros a b E. inversion E as [E']. try apply app_inv_head in E'. apply to_dec_inj in E'. lia. }
+  assert (Hincl : incl cands (map fst m)).
+  { intros x Hx. unfold cands in Hx. apply in_map_iff in Hx as [i [Hi Hin]]. subst x.
+    apply in_seq in Hin. destruct (nm_get m (Some (s_ns ++ to_dec (k + N.of_nat i)))) as [u|] eqn:G.
+    - exact (nm_get_Some_In_keys _ _ _ G).
+    - exfalso. apply (H i); [lia|exact G]. }
+  pose proof (NoDup_incl_length Hnd2 Hincl) as Hl. unfold cands in Hl.
+  rewrite !map_length, seq_length in Hl. lia.
+Qed.
+
 Lemma generate_prefix_ok u0 m u :
   minv u0 m -> uri_ok u = true -> prefix_exists u m = false ->
   let '(p, m') := generate_prefix u m in
@@ -272,63 +300,52 @@ Proof.
   unfold generate_prefix.
   assert (Hune : u <> []) by (intros ->; discriminate).
   destruct u as [|c0 u']; [contradiction|]. set (u := c0 :: u') in *.
+  set (fresh := free_ns m (N.of_nat (length m)) (S (length m))).
+  pose proof (free_ns_free m (N.of_nat (length m)) (mi_uniq _ _ Hinv)) as Hfree. fold fresh in Hfree.
+  destruct (free_ns_form m (S (length m)) (N.of_nat (length m))) as [j Hj]. fold fresh in Hj.
   set (p := match std_prefix std_namespaces u with
-            | Some p => p
-            | None => s_ns ++ to_dec (N.of_nat (length m))
+            | Some sp => match nm_get m (Some sp) with
+                         | None => sp
+                         | Some u' => if str_eqb u' u then sp else fresh
+                         end
+            | None => fresh
             end).
-  (* the key is not in the map *)
-  assert (Habs : nm_get m (Some p) = None).
-  { destruct (nm_get m (Some p)) as [ux|] eqn:G; [|reflexivity]. exfalso.
-    unfold p in G. destruct (std_prefix std_namespaces u) as [sp|] eqn:Es.
-    - apply std_prefix_In in Es. pose proof (mi_std _ _ Hinv _ _ _ Es G) as ->.
-      apply nm_get_In in G. assert (prefix_exists u m = true) by (apply prefix_exists_iff; eauto). congruence.
-    - assert (H : N.of_nat (length m) < N.of_nat (length m)); [|lia].
-      apply (mi_fresh _ _ Hinv). intros E. unfold str in *. rewrite E in G. discriminate. }
-  assert (Hlen : length (nm_set m (Some p) u) = S (length m)).
-  { rewrite nm_set_length. unfold nm_has_key. rewrite Habs. reflexivity. }
+  (* the key is not in the map, and the facts about the new prefix *)
+  assert (Hfacts : nm_get m (Some p) = None
+                   /\ is_ncname p = true /\ p <> s_xmlns /\ (p = s_xml <-> u = ns_xml)).
+  { assert (Hfr : nm_get m (Some fresh) = None /\ is_ncname fresh = true /\ fresh <> s_xmlns /\ fresh <> s_xml).
+    { split; [exact Hfree|]. rewrite Hj. split; [apply ns_prefix_ncname|].
+      split; intros H; unfold s_ns, s_xmlns, s_xml in H; discriminate. }
+    destruct Hfr as [F1 [F2 [F3 F4]]].
+    unfold p. destruct (std_prefix std_namespaces u) as [sp|] eqn:Es.
+    - apply std_prefix_In in Es. pose proof (Sok _ _ Es) as Hok. unfold std_entry_ok in Hok.
+      apply andb_true_iff in Hok as [Hok Hx]. apply andb_true_iff in Hok as [Hok _].
+      apply andb_true_iff in Hok as [Hnc Hnx]. apply Bool.eqb_prop in Hx.
+      assert (Hsp : is_ncname sp = true /\ sp <> s_xmlns /\ (sp = s_xml <-> u = ns_xml)).
+      { split; [exact Hnc|split].
+        - intros ->. rewrite str_eqb_refl in Hnx. discriminate.
+        - split; intros E.
+          + subst sp. rewrite str_eqb_refl in Hx. apply str_eqb_eq. symmetry. exact Hx.
+          + rewrite E, str_eqb_refl in Hx. apply str_eqb_eq. exact Hx. }
+      destruct (nm_get m (Some sp)) as [ux|] eqn:G.
+      + destruct (str_eqb_spec ux u) as [E|E].
+        * subst ux. exfalso. apply nm_get_In in G.
+          assert (prefix_exists u m = true) by (apply prefix_exists_iff; eauto). congruence.
+        * split; [exact F1|split; [exact F2|split; [exact F3|]]]. split; [intros E2; contradiction|].
+          (* u = ns_xml would make sp = xml, a key bound to another namespace: not legal *)
+          intros E2. exfalso. destruct Hsp as [_ [_ Hxml]]. apply Hxml in E2. subst sp.
+          apply nm_get_In in G. pose proof (mi_legal _ _ Hinv _ _ G) as Hl. cbn in Hl.
+          destruct Hl as [_ [_ [_ Hl]]]. apply E. rewrite (proj1 Hl eq_refl).
+          symmetry. apply Hxml. reflexivity.
+      + split; [exact G|exact Hsp].
+    - split; [exact F1|split; [exact F2|split; [exact F3|]]]. split; [intros E2; contradiction|].
+      intros ->. exfalso. exact (std_prefix_None _ _ Es _ Sxml). }
+  destruct Hfacts as [Habs [Hnc [Hnx Hxml]]].
   assert (Hext : ext m (nm_set m (Some p) u)).
   { intros p' x Hg. apply nm_set_fresh_get; assumption. }
-  (* facts about the new prefix *)
-  assert (Hp : is_ncname p = true /\ p <> s_xmlns /\ (p = s_xml <-> u = ns_xml)
-               /\ (forall su sp, In (su, sp) std_namespaces -> sp = p -> su = u)
-               /\ (forall k, p = s_ns ++ to_dec k -> k = N.of_nat (length m))).
-  { unfold p. destruct (std_prefix std_namespaces u) as [sp|] eqn:Es.
-    - apply std_prefix_In in Es. pose proof (Sok _ _ Es) as Hok. unfold std_entry_ok in Hok.
-      apply andb_true_iff in Hok as [Hok Hg]. apply andb_true_iff in Hok as [Hok Hx].
-      apply andb_true_iff in Hok as [Hok _]. apply andb_true_iff in Hok as [Hnc Hnx].
-      repeat split.
-      + exact Hnc.
-      + intros ->. rewrite str_eqb_refl in Hnx. discriminate.
-      + intros ->. rewrite str_eqb_refl in Hx. apply Bool.eqb_prop in Hx.
-        apply str_eqb_eq. symmetry. exact Hx.
-      + intros ->. rewrite str_eqb_refl in Hx. apply Bool.eqb_prop in Hx. apply str_eqb_eq. exact Hx.
-      + intros su sp' Hin ->. exact (Sinj _ _ _ Hin Es).
-      + intros k ->. rewrite generated_index_ns in Hg. discriminate.
-    - repeat split.
-      + apply ns_prefix_ncname.
-      + intros H. unfold s_ns, s_xmlns in H. discriminate.
-      + intros H. unfold s_ns, s_xml in H. discriminate.
-      + intros ->. exfalso. exact (std_prefix_None _ _ Es _ Sxml).
-      + intros su sp Hin ->. exfalso. pose proof (Sok _ _ Hin) as Hok. unfold std_entry_ok in Hok.
-        apply andb_true_iff in Hok as [_ Hg]. rewrite generated_index_ns in Hg. discriminate.
-      + intros k H. apply app_inv_head in H. apply to_dec_inj in H. symmetry. exact H. }
-  destruct Hp as [Hnc [Hnx [Hxml [Hstd Hgen]]]].
   split; [|split; [exact Hext|split; [apply nm_get_set_same|exact Habs]]].
   constructor.
   - apply nm_set_nodup, (mi_uniq _ _ Hinv).
-  - intros k Hk. rewrite Hlen.
-    destruct (str_eqb_spec (s_ns ++ to_dec k) p) as [E|E].
-    + symmetry in E. apply Hgen in E. lia.
-    + rewrite nm_get_set_other in Hk.
-      * apply (mi_fresh _ _ Hinv) in Hk. lia.
-      * intros H. apply E. congruence.
-  - intros su sp x Hin Hg.
-    destruct (str_eqb_spec sp p) as [E|E].
-    + subst sp. rewrite nm_get_set_same in Hg. inversion Hg; subst.
-      symmetry. exact (Hstd _ _ Hin eq_refl).
-    + rewrite nm_get_set_other in Hg.
-      * exact (mi_std _ _ Hinv _ _ _ Hin Hg).
-      * intros H. apply E. congruence.
   - intros p' x Hin. apply nm_set_In_fresh in Hin; [|exact Habs]. destruct Hin as [Hin|Hin].
     + exact (mi_legal _ _ Hinv _ _ Hin).
     + inversion Hin; subst. cbn. repeat split; try assumption; apply Hxml.
@@ -390,10 +407,6 @@ Proof.
   split; [|split; [|apply nm_get_set_same]].
   - constructor.
     + apply nm_set_nodup, (mi_uniq _ _ Hinv).
-    + intros k Hg. rewrite Hlen. rewrite nm_get_set_other in Hg by discriminate.
-      exact (mi_fresh _ _ Hinv _ Hg).
-    + intros su sp u Hin Hg. rewrite nm_get_set_other in Hg by discriminate.
-      exact (mi_std _ _ Hinv _ _ _ Hin Hg).
     + intros p u Hin.
       assert (Hnd : NoDup (map fst (nm_set m None []))) by (apply nm_set_nodup, (mi_uniq _ _ Hinv)).
       pose proof (In_nm_get _ _ _ Hnd Hin) as Hg.
@@ -486,22 +499,14 @@ Proof.
 Qed.
 
 Lemma user_minv user :
-  user_prefixes_legal user = true -> user_no_collision user = true ->
+  user_prefixes_legal user = true ->
   minv (user_default user) (serializer_ns_map user).
 Proof.
-  intros Hleg Hcol. unfold user_prefixes_legal, user_no_collision in *.
+  intros Hleg. unfold user_prefixes_legal in *.
   set (m := serializer_ns_map user) in *.
   assert (Hnd : NoDup (map fst m)) by apply serializer_ns_map_nodup.
   constructor.
   - exact Hnd.
-  - intros k Hk. destruct (nm_get m (Some (s_ns ++ to_dec k))) as [u|] eqn:G; [|congruence].
-    apply nm_get_In in G. pose proof (forallb_In _ _ _ Hcol G) as H.
-    unfold user_entry_no_collision in H. cbn [fst] in H. rewrite generated_index_ns in H.
-    apply andb_true_iff in H as [H _]. apply N.ltb_lt in H. exact H.
-  - intros su sp u Hin G. apply nm_get_In in G. pose proof (forallb_In _ _ _ Hcol G) as H.
-    unfold user_entry_no_collision in H. cbn [fst snd] in H.
-    apply andb_true_iff in H as [_ H]. pose proof (forallb_In _ _ _ H Hin) as H'.
-    cbn [fst snd] in H'. rewrite str_eqb_refl in H'. cbn in H'. apply str_eqb_eq in H'. exact H'.
   - intros p u Hin. pose proof (forallb_In _ _ _ Hleg Hin) as H. unfold user_prefix_legal in H.
     cbn [fst snd] in H. apply andb_true_iff in H as [H Hx]. apply andb_true_iff in H as [Hp Hu].
     apply negb_true_iff in Hx.
